@@ -76,6 +76,17 @@ def run(tier):
                'samples': [cases[len(cases) // 2], {'per_protocol': out['per_protocol']}],
                'exhaustive': True, 'model_check': mc, 'mechanism_candidates': cand,
                'replay': {'cases_from_tlc': len(cases), 'parser_runs': out['runs'], 'classes': out['classes'], 'signature_counts': out['signature_counts']}}
+        if tier == 'thorough':
+            # the ingest protocols beyond this property's list (Elasticsearch bulk/doc, Cloudflare, Datadog metrics by route) are
+            # checked with the same oracle style by the extra check X04 (BulkIngest.tla); it belongs to this property's deep tier
+            import props.x04 as x04
+            xr = x04.run('quick')
+            for v in xr['violations']:
+                viols.append(dict(v, property='C03', signature='bulk|' + v['signature']))
+            cov['bulk_x04'] = {k: xr['coverage'].get(k) for k in ('states', 'transitions', 'traces_validated_against_impl')}
+            cov['states'] += xr['coverage'].get('states', 0)
+            cov['transitions'] += xr['coverage'].get('transitions', 0)
+            cov['traces_validated_against_impl'] += xr['coverage'].get('traces_validated_against_impl', 0)
         return {'level': 'model_checking', 'coverage': cov, 'violations': viols,
                 'assumptions': ['thresholds scaled: 3 points in the model = 1000 in the code, 4 size units = 1 MiB',
                                 'label names/values in this check are benign (hostile labels are C04\'s subject)',
